@@ -760,3 +760,210 @@ Proof.
   - exact (whichoneof_prog_correct sch h (PMsg mid p) j Hwf Hok).
   - exact (range_prog_correct sch h (PMsg mid p) Hwf Hok Hc).
 Qed.
+
+(* ================================================================== the invariant is kept by every step *)
+Lemma cells_fitb_set_nth : forall fs cs i c, cells_fitb fs cs = true ->
+  (forall fd, nth_error fs i = Some fd -> cell_fitsb fd c = true) -> cells_fitb fs (set_nth cs i c) = true.
+Proof.
+  induction fs as [|a fs IH]; intros cs i c H K; destruct cs as [|x cs]; cbn [cells_fitb set_nth] in *; try discriminate; [reflexivity|].
+  apply andb_prop in H. destruct H as [H1 H2]. destruct i as [|i]; cbn [cells_fitb].
+  - rewrite (K a eq_refl), H2. reflexivity.
+  - rewrite H1, (IH cs i c H2); [reflexivity|]. intros fd N. apply K. exact N.
+Qed.
+
+Lemma cells_fitb_nth_r : forall fs cs i c, cells_fitb fs cs = true -> nth_error cs i = Some c ->
+  exists fd, nth_error fs i = Some fd /\ cell_fitsb fd c = true.
+Proof.
+  induction fs as [|a fs IH]; intros cs i c H N; destruct cs as [|x cs]; cbn [cells_fitb] in H; try discriminate.
+  - destruct i; discriminate.
+  - apply andb_prop in H. destruct H as [H1 H2]. destruct i as [|i]; cbn [nth_error] in *.
+    + inversion N; subst. eauto.
+    + eapply IH; eauto.
+Qed.
+
+Lemma slots_fitb_set_nth : forall ss fs o0 j x, slots_fitb fs o0 ss = true -> slot_fitsb fs (o0 + j) x = true ->
+  slots_fitb fs o0 (set_nth ss j x) = true.
+Proof.
+  induction ss as [|a ss IH]; intros fs o0 j x H K; cbn [set_nth]; [reflexivity|].
+  cbn [slots_fitb] in H. apply andb_prop in H. destruct H as [H1 H2]. destruct j as [|j]; cbn [slots_fitb].
+  - rewrite Nat.add_0_r in K. rewrite K, H2. reflexivity.
+  - rewrite H1, (IH fs (S o0) j x H2); [reflexivity|]. rewrite Nat.add_succ_r in K. exact K.
+Qed.
+
+Lemma pte_fits t v e : pval_to_elem t v = Some e ->
+  match t, e with TScalar _, EScalar _ | TMsg _, EPtr _ => true | _, _ => false end = true.
+Proof.
+  unfold pval_to_elem. destruct t as [k|m]; destruct v; try discriminate.
+  - destruct (wt_scalar k v); [|discriminate]. intro H; inversion H; reflexivity.
+  - destruct (Nat.eqb m mid); [|discriminate]. intro H; inversion H; reflexivity.
+Qed.
+
+Section Kept.
+  Variable sch : schema.
+
+  Definition hokP (h : heap) : Prop := forall id o, get_obj h id = Some o -> rp_obj_okb sch o = true.
+
+  Lemma hokP_of h : rp_heap_okb sch h = true -> hokP h.
+  Proof. intros H id o G. eapply heap_okb_get; eauto. Qed.
+  Lemma hokP_to h : hokP h -> rp_heap_okb sch h = true.
+  Proof.
+    intro H. unfold rp_heap_okb. apply forallb_forall. intros e I. destruct e as [o| |]; try reflexivity.
+    apply In_nth_error in I. destruct I as [id I]. apply (H id). unfold get_obj, hget. rewrite I. reflexivity.
+  Qed.
+
+  Lemma okb_set_cell o f c : rp_obj_okb sch o = true ->
+    (forall fd, field_of sch (o_mid o) f = Some fd -> cell_fitsb fd c = true) -> rp_obj_okb sch (set_cell o f c) = true.
+  Proof.
+    unfold rp_obj_okb, field_of. cbn [set_cell o_mid o_cells o_oneofs]. destruct (get_msg sch (o_mid o)) as [md|]; [|reflexivity].
+    intros H K. apply andb_prop in H. destruct H as [H H3]. apply andb_prop in H. destruct H as [H1 H2].
+    rewrite H2, H3, (cells_fitb_set_nth _ _ _ _ H1 K). reflexivity.
+  Qed.
+
+  Lemma okb_cell_update o f c c' : rp_obj_okb sch o = true -> nth_error (o_cells o) f = Some c ->
+    (forall fd, cell_fitsb fd c = true -> cell_fitsb fd c' = true) -> rp_obj_okb sch (set_cell o f c') = true.
+  Proof.
+    intros H N K. apply okb_set_cell; [exact H|]. intros fd F. apply K.
+    unfold rp_obj_okb in H. unfold field_of in F. destruct (get_msg sch (o_mid o)) as [md|]; [|discriminate].
+    apply andb_prop in H. destruct H as [H _]. apply andb_prop in H. destruct H as [H1 _].
+    destruct (cells_fitb_nth_r _ _ _ _ H1 N) as [fd' [F' C']]. congruence.
+  Qed.
+
+  Lemma okb_set_oneof o j x : rp_obj_okb sch o = true ->
+    (forall md, get_msg sch (o_mid o) = Some md -> slot_fitsb (m_fields md) j x = true) -> rp_obj_okb sch (set_oneof o j x) = true.
+  Proof.
+    unfold rp_obj_okb. cbn [set_oneof o_mid o_cells o_oneofs]. destruct (get_msg sch (o_mid o)) as [md|]; [|reflexivity].
+    intros H K. apply andb_prop in H. destruct H as [H H3]. apply andb_prop in H. destruct H as [H1 H2].
+    rewrite H1, set_nth_length, H2, (slots_fitb_set_nth _ _ 0 j x H3 (K md eq_refl)). reflexivity.
+  Qed.
+
+  Lemma okb_set_unk o u : rp_obj_okb sch o = true -> rp_obj_okb sch (set_unk o u) = true.
+  Proof. unfold rp_obj_okb. cbn [set_unk o_mid o_cells o_oneofs]. auto. Qed.
+
+  Lemma hokP_hset h id e : hokP h -> (forall o, e = HObj o -> rp_obj_okb sch o = true) -> hokP (hset h id e).
+  Proof.
+    intros H He id' o. unfold get_obj, hget, hset. destruct (nth_error (set_nth h id e) id') as [x|] eqn:E; [|discriminate].
+    apply nth_error_set_nth_cases in E. destruct E as [->|E].
+    - destruct e; try discriminate. intro X; inversion X; subst. apply He; reflexivity.
+    - intro X. apply (H id' o). unfold get_obj, hget. rewrite E. exact X.
+  Qed.
+
+  Lemma hokP_app h e : hokP h -> (forall o, e = HObj o -> rp_obj_okb sch o = true) -> hokP (h ++ [e]).
+  Proof.
+    intros H He id o. unfold get_obj, hget. destruct (Nat.lt_ge_cases id (length h)) as [L|L].
+    - rewrite nth_error_app1 by exact L. apply (H id o).
+    - rewrite nth_error_app2 by exact L. destruct (id - length h) as [|n]; cbn [nth_error].
+      + destruct e; try discriminate. intro X; inversion X; subst. apply He; reflexivity.
+      + destruct n; discriminate.
+  Qed.
+
+  Lemma hokP_new h mid : hokP h -> hokP (h ++ [HObj (new_obj sch mid)]).
+  Proof. intro H. apply hokP_app; [exact H|]. intros o E; inversion E; apply new_obj_okb. Qed.
+  Lemma hokP_var h e : hokP h -> (forall o, e <> HObj o) -> hokP (h ++ [e]).
+  Proof. intros H N. apply hokP_app; [exact H|]. intros o E. destruct (N o E). Qed.
+
+  Lemma hokP_set_cell h h0 mid id ob f fd c :
+    hokP h -> hokP h0 -> recv_obj sch h0 mid (Some id) = Some ob -> field_of sch mid f = Some fd -> cell_fitsb fd c = true ->
+    hokP (hset h id (HObj (set_cell ob f c))).
+  Proof.
+    intros H H0 R F C. apply recv_obj_inv in R. destruct R as [G M]. apply hokP_hset; [exact H|].
+    intros o E; inversion E; subst. apply okb_set_cell; [apply (H0 _ _ G)|]. intros fd' F'. congruence.
+  Qed.
+
+  Lemma hokP_set_oneof h h0 mid id ob j x :
+    hokP h -> hokP h0 -> recv_obj sch h0 mid (Some id) = Some ob ->
+    (forall md, get_msg sch mid = Some md -> slot_fitsb (m_fields md) j x = true) ->
+    hokP (hset h id (HObj (set_oneof ob j x))).
+  Proof.
+    intros H H0 R K. apply recv_obj_inv in R. destruct R as [G M]. apply hokP_hset; [exact H|].
+    intros o E; inversion E; subst. apply okb_set_oneof; [apply (H0 _ _ G)|exact K].
+  Qed.
+
+  Lemma hokP_set_unk h mid id ob u :
+    hokP h -> recv_obj sch h mid (Some id) = Some ob -> hokP (hset h id (HObj (set_unk ob u))).
+  Proof.
+    intros H R. apply recv_obj_inv in R. destruct R as [G M]. apply hokP_hset; [exact H|].
+    intros o E; inversion E; subst. apply okb_set_unk, (H _ _ G).
+  Qed.
+
+  Lemma hokP_same h mid id ob : hokP h -> recv_obj sch h mid (Some id) = Some ob -> hokP (hset h id (HObj ob)).
+  Proof. intros H R. apply recv_obj_inv in R. destruct R as [G M]. rewrite (hset_same _ _ _ G). exact H. Qed.
+
+  Lemma fitsb_list_any fd l l' : cell_fitsb fd (CList l) = true -> cell_fitsb fd (CList l') = true.
+  Proof. unfold cell_fitsb. destruct (f_shape fd); destruct (f_ty fd); auto. Qed.
+  Lemma fitsb_map_any fd m m' : cell_fitsb fd (CMap m) = true -> cell_fitsb fd (CMap m') = true.
+  Proof. unfold cell_fitsb. destruct (f_shape fd); destruct (f_ty fd); auto. Qed.
+
+  Lemma hokP_write_list h r l0 l : hokP h -> read_list h r = Some l0 -> hokP (write_list h r l).
+  Proof.
+    intros H R. destruct r as [o f|v|]; cbn [write_list]; [| |exact H].
+    - destruct (read_list_field _ _ _ _ R) as [ob [G C]]. rewrite G. apply hokP_hset; [exact H|].
+      intros o' E; inversion E; subst. eapply okb_cell_update; [apply (H _ _ G)|exact C|]. intros fd. apply fitsb_list_any.
+    - apply hokP_hset; [exact H|]. intros o E; discriminate.
+  Qed.
+  Lemma hokP_write_map h r m0 m : hokP h -> read_map h r = Some m0 -> hokP (write_map h r m).
+  Proof.
+    intros H R. destruct r as [o f|v|]; cbn [write_map]; [| |exact H].
+    - destruct (read_map_field _ _ _ _ R) as [ob [G C]]. rewrite G. apply hokP_hset; [exact H|].
+      intros o' E; inversion E; subst. eapply okb_cell_update; [apply (H _ _ G)|exact C|]. intros fd. apply fitsb_map_any.
+    - apply hokP_hset; [exact H|]. intros o E; discriminate.
+  Qed.
+
+  (* the wrapper stored by Set / Mutable of a member fits the slot of its oneof *)
+  Lemma slot_fits_member mid f fd j e : field_of sch mid f = Some fd -> f_shape fd = Member j ->
+    match f_ty fd, e with TScalar _, EScalar _ | TMsg _, EPtr _ => true | _, _ => false end = true ->
+    forall md, get_msg sch mid = Some md -> slot_fitsb (m_fields md) j (Some (f, e)) = true.
+  Proof.
+    intros F Sh T md G. unfold field_of in F. rewrite G in F. cbn [slot_fitsb]. rewrite F. unfold rp_member_of.
+    rewrite Sh, Nat.eqb_refl, T. reflexivity.
+  Qed.
+
+  Ltac kdm :=
+    match goal with
+    | |- context [match ?x with _ => _ end] => destruct x eqn:?
+    | |- context [if ?x then _ else _] => destruct x eqn:?
+    end.
+
+  Ltac kfits :=
+    unfold cell_fitsb;
+    repeat match goal with
+           | H : pval_to_elem (f_ty _) _ = Some (EScalar _) |- _ => destruct (pte_scalar _ _ _ H) as [? ?]; clear H
+           | H : pval_to_elem (f_ty _) _ = Some (EPtr _) |- _ => destruct (pte_ptr _ _ _ H) as [? ?]; clear H
+           end;
+    repeat match goal with
+           | H : f_shape _ = _ |- _ => rewrite H
+           | H : f_ty _ = _ |- _ => rewrite H
+           end;
+    try reflexivity.
+
+  Ltac kslot :=
+    first
+      [ intros; reflexivity
+      | eapply slot_fits_member; [eassumption | eassumption | eapply pte_fits; eassumption]
+      | eapply slot_fits_member; [eassumption | eassumption |
+                                  match goal with H : f_ty _ = _ |- _ => rewrite H end; reflexivity] ].
+
+  Ltac kbase H := first [exact H | apply hokP_new; exact H].
+
+  Ltac kleaf H :=
+    cbn [fst];
+    first
+      [ exact H
+      | apply hokP_new; exact H
+      | apply hokP_var; [exact H | intros ? ?; discriminate]
+      | eapply hokP_same; [exact H | eassumption]
+      | eapply hokP_set_unk; [exact H | eassumption]
+      | eapply hokP_set_oneof; [kbase H | exact H | eassumption | kslot]
+      | eapply hokP_set_cell; [kbase H | exact H | eassumption | eassumption | kfits]
+      | eapply hokP_write_list; [kbase H | first [eassumption | apply read_list_app; eassumption]]
+      | eapply hokP_write_map; [kbase H | first [eassumption | apply read_map_app; eassumption]] ].
+
+  Lemma step_keeps_hokP : forall h o, hokP h -> hokP (fst (step sch h o)).
+  Proof.
+    intros h o H. destruct o; cbn [step]; unfold halloc; repeat kdm; kleaf H.
+  Qed.
+End Kept.
+
+Lemma rp_heap_ok_kept : rp_heap_ok_kept_stmt.
+Proof.
+  intros sch h o Hwf Hok. apply hokP_to. apply step_keeps_hokP. apply hokP_of. exact Hok.
+Qed.
